@@ -146,14 +146,17 @@ def _check_sparse(n):
     allps = list(itertools.product("IXYZ", repeat=n))
     for i, ps in enumerate(allps):
         ops = {q: p for q, p in enumerate(ps) if p != "I"}
+        for scale in (1.0, 1e-9, 1e6):        # small and large operators alike: the matrix is homogeneous in the coefficient (relative comparison)
+            c = (0.7 - 0.3j) * (1 + i % 3) * scale
+            t = PauliTerm(ops or "I0", c)
+            for total in (n, n + 1, n + 2) if scale == 1.0 else (n,):
+                if total < t.n_qubits:
+                    continue
+                M = get_sparse_operator(t, total).toarray()
+                if M.shape != (2 ** total, 2 ** total) or not np.allclose(M, c * kron(ps, total), rtol=1e-12, atol=1e-14 * scale):
+                    return False, f"{t} on {total} qubits differs from the Kronecker definition (max deviation {abs(M - c * kron(ps, total)).max():.2e})"
         c = (0.7 - 0.3j) * (1 + i % 3)
         t = PauliTerm(ops or "I0", c)
-        for total in (n, n + 1, n + 2):
-            if total < t.n_qubits:
-                continue
-            M = get_sparse_operator(t, total).toarray()
-            if M.shape != (2 ** total, 2 ** total) or not np.allclose(M, c * kron(ps, total)):
-                return False, f"{t} on {total} qubits differs from the Kronecker definition"
         if ops and max(ops) + 1 == n and n > 1:
             try:
                 get_sparse_operator(t, n - 1)
@@ -248,6 +251,14 @@ def _check_misc(mode):
         e2 = get_expectation_value(op, wf, reverse_operator=True)
         if abs(e2 - np.vdot(v, Mr @ v)) > 1e-10:
             return False, "expectation with reverse_operator"
+    # the Hermiticity test on MATRICES (sparse and dense): agrees with M == M^H, in particular for non-real diagonals
+    for o in [PauliTerm("Z0", 1j), PauliTerm("I0", 2j), PauliTerm("Z1", 1 + 1j), PauliSum([PauliTerm("X0", 1.0), PauliTerm("Z0*Z1", 0.5j)]), PauliTerm("X0", 1j), PauliTerm("Y1", 1.0),
+              PauliSum([PauliTerm("Z0", 1.0), PauliTerm("X1", -2.0)]), PauliTerm("I0", 3.0)]:
+        Ms = get_sparse_operator(o, 2)
+        Md = Ms.toarray()
+        truth = bool(np.allclose(Md, Md.conj().T))
+        if bool(is_hermitian(Ms)) != truth or bool(is_hermitian(Md)) != truth:
+            return False, f"is_hermitian on the sparse / dense matrix of {o} says {bool(is_hermitian(Ms))} / {bool(is_hermitian(Md))}, M == M^H is {truth}"
     herm = [PauliTerm("X0*Y1", 0.5), PauliSum([PauliTerm("Z0", 1.0), PauliTerm("Y1", -2.0)]), PauliSum(), PauliTerm("I0", 3.0)]
     nonherm = [PauliTerm("X0", 1j), PauliSum([PauliTerm("Z0", 1.0), PauliTerm("Y1", 0.5j)]), PauliTerm("I0", 1 + 1j)]
     for o in herm + nonherm:
